@@ -170,6 +170,10 @@ func init() {
 					if vs, ok := x.(*parser.VectorSelector); ok && vs.Timestamp == nil {
 						hit = true
 					}
+					// time() makes the parameter vary per step as well
+					if call, ok := x.(*parser.Call); ok && call.Func.Name == "time" {
+						hit = true
+					}
 					return nil
 				})
 				return nil
